@@ -308,7 +308,7 @@ func (h *hgen) history(t *topo, cycles int) {
 }
 
 func gen(g *common.Gen) {
-	h := &hgen{g: g, r: g.R}
+	h := &hgen{g: g, r: common.NewRand(dvsim.ScrambleSeed(common.Seed()))}
 	maxN := 4
 	if common.Thorough() {
 		maxN = 5
